@@ -341,16 +341,16 @@ def f_rt(script, name, bounded=False, args_quick=(), args_thorough=()):
 
 
 f_compile = f_rt("compile", "compile", bounded=True, args_quick=("--bound", "2", "--time-limit", "40"),
-                args_thorough=("--bound", "2", "--time-limit", "1200"))
+                args_thorough=("--bound", "3", "--time-limit", "600"))
 def f_docs(sections):
     return f_rt("documents", "documents", bounded=True, args_quick=("--count", "80", "--sections", sections),
-                args_thorough=("--count", "600", "--sections", sections))
+                args_thorough=("--count", "2000", "--sections", sections))
 
 
 f_markdown = f_rt("markdown", "markdown", args_quick=("quick",), args_thorough=("thorough",))
 f_matcher = f_rt("matcher", "matcher", args_quick=("--bound", "2"), args_thorough=("--bound", "3"))
 f_traces = f_rt("parser_traces", "parser-traces", bounded=True, args_quick=("--bound", "3"),
-                args_thorough=("--bound", "4", "--time-limit", "1500"))
+                args_thorough=("--bound", "5", "--time-limit", "600"))
 
 
 PROPS = {
